@@ -39,6 +39,12 @@ impl IntoVal for Raw {
     }
 }
 
+impl IntoVal for Zst {
+    fn into_val(self) -> Val {
+        std::mem::forget(self);
+        world::zst_adopt()
+    }
+}
 impl IntoVal for Nz {
     fn into_val(self) -> Val {
         Val { id: self.0.get() }
@@ -617,6 +623,7 @@ pub fn build_f(parent: Option<NodeId>, idx: usize, spec: &CombSpec) -> (NodeId, 
         Family::Join => match spec.variant {
             1 => join_over(kids_plain(id, spec, Flavor::F, PlainF), spec.container, n),
             2 => join_over(kids_raw(id, spec, Flavor::F, RawF), spec.container, n),
+            5 => join_over(kids_raw(id, spec, Flavor::F, ZstF), spec.container, n),
             4 => {
                 let mut it = kids_raw(id, spec, Flavor::F, |m| m).into_iter();
                 hetero_match!(n, it, [LeafF, NzF, RawF, WideF], |t| fin_join(t.join()))
@@ -646,6 +653,7 @@ pub fn build_r(parent: Option<NodeId>, idx: usize, spec: &CombSpec) -> (NodeId, 
             1 => try_join_over(kids_plain(id, spec, Flavor::R, PlainR), spec.container, n),
             2 => try_join_over(kids_raw(id, spec, Flavor::R, RawR), spec.container, n),
             3 => try_join_over(kids_raw(id, spec, Flavor::R, ErrRawR), spec.container, n),
+            5 => try_join_over(kids_raw(id, spec, Flavor::R, ZstR), spec.container, n),
             4 => {
                 let mut it = kids_raw(id, spec, Flavor::R, |m| m).into_iter();
                 hetero_match!(n, it, [LeafR, NzR, RawR, WideR], |t| fin_try_join(t.try_join()))
@@ -675,6 +683,7 @@ pub fn build_s(parent: Option<NodeId>, idx: usize, spec: &CombSpec) -> (NodeId, 
         Family::Zip => match spec.variant {
             1 => zip_over(kids_plain(id, spec, Flavor::S, PlainS), spec.container, n),
             2 => zip_over(kids_raw(id, spec, Flavor::S, RawS), spec.container, n),
+            5 => zip_over(kids_raw(id, spec, Flavor::S, ZstS), spec.container, n),
             4 => {
                 let mut it = kids_raw(id, spec, Flavor::S, |m| m).into_iter();
                 hetero_match!(n, it, [LeafS, NzS, RawS, WideS], |t| map_s(t.zip(), |x| Val::list(x.into_vec())))
